@@ -128,7 +128,11 @@ def run_tlc(spec, cfg, workers=1, timeout=600, env=None, simulate=None, depth=No
 
 def _tail(out, n=60):
     lines = [l for l in out.splitlines() if not l.startswith('"EMIT') and not l.startswith('   "')]
-    return "\n".join(lines[-n:])
+    errs = []
+    for i, l in enumerate(lines):
+        if l.startswith("Error:") or "Exception" in l:
+            errs += [x[:300] for x in lines[i:i + 4]]
+    return "\n".join(errs[:24] + ["..."] + [x[:300] for x in lines[-n:]])
 
 
 def _parse(r, out):
